@@ -1,5 +1,5 @@
 """C01: TLS sessions deliver application data exactly and agree on session parameters."""
-from vrun import Job
+from vrun import Job, with_alt_flavours
 
 LEVEL = 'exploration'
 RULE = ('case idx -> (suite, version) = table[idx % 75] (all 45 suites x the versions each exists in); '
@@ -31,4 +31,6 @@ def jobs(tier, seed):
     no = 464 if tier == 'quick' else 4640
     js += [Job('os%d' % i, 'h_tls01o', ['--seed', seed, '--worker', i, '--nworkers', NW, '--cases', no],
                libs=['-lssl', '-lcrypto'], timeout=600 if tier == 'quick' else 3600) for i in range(NW)]
-    return js
+    # 4 of the 32 workers (quick; all of them in the thorough tier) are repeated on the other arithmetic
+    # configurations of the library, where br_ssl_*_init_full() selects other default implementations
+    return with_alt_flavours(js, tier, seed)
